@@ -318,6 +318,15 @@ func c20ServeProp(t *testing.T, k *verifkit.Kit) func(c c20Serve) error {
 					latestReady = at
 				}
 			}
+			// The per-task notes are recognised by their shape (a status and nothing else), not
+			// by their wording; a server that announces no per-task status at all is not judged
+			// by their number (the statement speaks of the overall announcement only).
+			perTask := 0
+			for _, s := range notes {
+				if c20PerTaskNote(s) {
+					perTask++
+				}
+			}
 			readyIdx, startedN := -1, 0
 			for i, s := range notes {
 				if strings.Contains(s, sdnotify.Ready) {
@@ -325,11 +334,11 @@ func c20ServeProp(t *testing.T, k *verifkit.Kit) func(c c20Serve) error {
 						return verifkit.Violf("C20/ready-twice", "READY announced twice\n%s", desc())
 					}
 					readyIdx = i
-					if startedN != len(c.Tasks)+1 {
+					if startedN != len(c.Tasks)+1 && perTask > 0 {
 						return verifkit.Violf("C20/ready-before-all-started", "READY after %d 'started' statuses, want %d\n%s", startedN, len(c.Tasks)+1, desc())
 					}
 				}
-				if strings.HasPrefix(s, "STATUS=started ") {
+				if c20PerTaskNote(s) {
 					startedN++
 				}
 			}
@@ -603,3 +612,8 @@ func TestVerif_C20(t *testing.T) {
 }
 
 var _ = errors.New
+
+// c20PerTaskNote: a notification that carries a status text and no state change.
+func c20PerTaskNote(s string) bool {
+	return strings.HasPrefix(s, "STATUS=") && !strings.Contains(s, "\n") && !strings.Contains(s, sdnotify.Ready) && !strings.Contains(s, sdnotify.Stopping)
+}
